@@ -632,6 +632,12 @@ r_expand(const Expansion &expansion, const vector_string &args,
   // glued onto whatever precedes the (empty) left operand.
   bool prev_empty = false;
 
+  // The arguments are macro-expanded before they are substituted.  This
+  // manifest itself is only exempt from expansion when its replacement list
+  // is rescanned, not within its arguments (consider F(F(1))).
+  Ignores arg_ignores(ignores);
+  arg_ignores.erase(this);
+
   for (const ExpansionNode &node : expansion) {
     bool paste = node._paste && !prev_empty;
     prev_empty = false;
@@ -666,7 +672,7 @@ r_expand(const Expansion &expansion, const vector_string &args,
       }
 
       if (node._expand) {
-        _parser.expand_manifests(subst, expand_undefined, ignores);
+        _parser.expand_manifests(subst, expand_undefined, arg_ignores);
       }
 
       if (!subst.empty()) {
